@@ -131,7 +131,7 @@ CLAIMS.update({
             "and thicknesses, coordinates, radius), the depth cut-off is >= min depth + L + T with derived fields resolved through parse_entries, the Cartesian box buffer is >= L + T, spherical buffer factor > 1, both longitude buffers of the spherical box dominate b/cos(lat) at both "
             "trench ends (DEP.bbox-lon), max-accumulators cover all sections x segments x both "
             "components, depth-surface pairing (min<-minimum, max<-maximum, same side everywhere), full-scan fallback before "
-            "Surface::local_value throws (every triangle, point and alias; skip flags set and read through the same index member), who-may-call of alias-unaware implementations. Numeric sufficiency of the buffer near the poles "
+            "Surface::local_value throws (every triangle, point and alias; skip flags set and read through the same index member; vertices, coefficients and reported index of one triangle test agree), who-may-call of alias-unaware implementations. Numeric sufficiency of the buffer near the poles "
             "and kd-tree pruning arithmetic are not decided",
             "§3.10, §3.4, §4 C07"),
     "C08": ("who-may-call + alias-wrapper shape + twin-block comparison + shift-degree abstract interpretation",
@@ -140,7 +140,7 @@ CLAIMS.update({
             "the ridge-distance routine identical under 1->2, alias longitude L+-2*pi per half-range at every alias site (ALIAS.shift), wrappers as truth tables over their paths, "
             "periodic start value of the spherical Bezier search; plus translation invariance of the Cartesian polygon, "
             "signed-distance and ellipse kernels by a shift-degree abstract interpretation (SHIFT.translation) and the closed forms of the "
-            "Point distance kernels; the culling box of slab/fault spans the extreme trench coordinates of each component (DEP.bbox-extremes). "
+            "Point distance kernels; the culling box of slab/fault spans the extreme trench coordinates of each component (DEP.bbox-extremes); the side of a transform fault is the sign of (b - a) x (p - a) for both tested points (EXPR.side-of-line). "
             "Invariance of the remaining kernels (real arithmetic) is not decided",
             "§3.5, §4 C08"),
     "C09": ("algebraic normal form of the cross-section map + layout agreement + dominance of the refusal",
